@@ -6,7 +6,7 @@
 From Coq Require Import ZArith List Bool Arith.
 From MomoCommon Require Import GenPrelude.
 From C20 Require Import PoolAlloc PoolAllocProofs.
-From C20 Require Gen_PoolAllocator.
+From C20 Require Gen_PoolAllocator Gen_MemPoolOps.
 Import ListNotations.
 
 (* For EVERY history of allocator operations (construct, copy, rebind, select_on_container_copy_construction,
@@ -279,6 +279,64 @@ Theorem C20_elem_query_frame : forall cfg st, (forall h, step cfg st (OpElem h) 
   (forall h1 h2, step cfg st (OpQuery h1 h2) = Ok (st, mkObs None None (hpool (handles st h1)) 0 0 false)).
 Proof. exact elem_query_frame. Qed.
 Print Assumptions C20_elem_query_frame.
+
+(* The pool side of a pooled allocate / deallocate is the GENERATED MemPool: cxx2coq translates MemPool::Allocate,
+   MemPool::Deallocate and pvFlushDeallocate (MemPool.h:281-323, 460-469; both assertions, the three-way block
+   source, the cache pop / push, the flush loop) on every run.  On (GetAllocateCount, mCachedCount) they are exactly
+   the model's pool_allocate_counts / pool_deallocate_counts, for every pool configuration, every memory content
+   and every block source; and the model's step applies exactly these functions to the pool it routes to. *)
+Theorem C20_generated_pool_Allocate_is_model : forall cfg lp nb nb1 rb aa bs0 mm P c hd,
+  (Z.of_nat (pcount P) + 1 < 2 ^ 64)%Z -> (Z.of_nat c < 2 ^ 64)%Z ->
+  match Gen_MemPoolOps.Allocate (cached_free_block_count cfg) (block_count cfg) lp nb nb1 rb aa bs0 mm
+          (fst (pparams P)) (snd (pparams P)) (Z.of_nat (pcount P)) (Z.of_nat c) hd with
+  | (_, cnt, cch, _) => cnt = Z.of_nat (fst (pool_allocate_counts cfg P c)) /\ cch = Z.of_nat (snd (pool_allocate_counts cfg P c))
+  end.
+Proof. exact gen_pool_Allocate_refines. Qed.
+Print Assumptions C20_generated_pool_Allocate_is_model.
+
+Theorem C20_generated_pool_Deallocate_is_model : forall cfg lp P c hd block, block <> 0%Z ->
+  (Z.of_nat (pcount P) < 2 ^ 64)%Z -> (c < 300)%nat ->
+  match Gen_MemPoolOps.Deallocate (cached_free_block_count cfg) lp (fst (pparams P)) (snd (pparams P)) (Z.of_nat (pcount P)) (Z.of_nat c) hd block,
+        pool_deallocate_counts cfg P c with
+  | Ok (_, cnt, cch, h'), Some (k, c') => cnt = Z.of_nat k /\ cch = Z.of_nat c' /\ (use_cache cfg P = true -> h' = block)
+  | Stuck, None => True
+  | _, _ => False
+  end.
+Proof. exact gen_pool_Deallocate_refines. Qed.
+Print Assumptions C20_generated_pool_Deallocate_is_model.
+
+Theorem C20_step_alloc_pool_counts : forall cfg st h n grow st' ob, step cfg st (OpAlloc h n grow) = Ok (st', ob) ->
+  let p := hpool (handles st h) in let P := pools st p in
+  match alloc_decision cfg (hvt (handles st h)) P n with
+  | APool false => (pcount (pools st' p), cached st' p) = pool_allocate_counts cfg P (cached st p)
+  | APool true => (pcount (pools st' p), cached st' p) =
+                  pool_allocate_counts cfg (mkPool (get_params cfg (hvt (handles st h))) 0 (prefs P) 0 (palive P)) 0
+  | ARaw _ => pools st' = pools st /\ cached st' = cached st
+  end.
+Proof. exact step_alloc_pool_counts. Qed.
+Print Assumptions C20_step_alloc_pool_counts.
+
+Theorem C20_step_dealloc_pool_counts : forall cfg st h b n shrink,
+  let p := hpool (handles st h) in let P := pools st p in
+  match dealloc_decision cfg (hvt (handles st h)) P n with
+  | DPool => match step cfg st (OpDealloc h b n shrink), pool_deallocate_counts cfg P (cached st p) with
+             | Ok (st', _), Some (k, c') => pcount (pools st' p) = k /\ cached st' p = c'
+             | Stuck, None => True
+             | _, _ => False
+             end
+  | DRaw _ => forall st' ob, step cfg st (OpDealloc h b n shrink) = Ok (st', ob) -> pools st' = pools st /\ cached st' = cached st
+  end.
+Proof. exact step_dealloc_pool_counts. Qed.
+Print Assumptions C20_step_dealloc_pool_counts.
+
+(* /repo fix f8cb4ff as a theorem: the functions that allocate are not declared noexcept (flags GENERATED from the
+   declarations), so a bad_alloc inside select_on_container_copy_construction reaches the container's copy constructor,
+   with the allocator state unchanged.  Reverting the fix makes this theorem (and the model's step) fail. *)
+Theorem C20_socc_failure_propagates : forall cfg st h,
+  Gen_PoolAllocator.select_on_container_copy_construction_noexcept = false /\ Gen_PoolAllocator.allocate_noexcept = false /\
+  step cfg st (OpSoccFail h) = Ok (st, mkObs None None (hpool (handles st h)) 0 0 false).
+Proof. exact socc_failure_propagates. Qed.
+Print Assumptions C20_socc_failure_propagates.
 
 (* The invariant used above is not vacuous: it holds initially and is preserved by every protocol- and
    H-respecting operation (which never gets stuck, routes correctly and balances the base allocator). *)
